@@ -43,7 +43,9 @@ def _worker(args):
     wall = args[2] if len(args) > 2 else None
     reg = registry()
     try:
-        return verify.verify_function(reg, key, timeout_s, wall_budget_s=wall)
+        # contracts reserved for the thorough tier are the ones with many paths: a larger path budget for them
+        budget = {"max_paths": 40000} if reg.contracts[key].tier == "thorough" else None
+        return verify.verify_function(reg, key, timeout_s, budget=budget, wall_budget_s=wall)
     except BaseException as e:  # noqa: BLE001
         return {"key": key, "error": f"crash: {e!r}", "traceback": traceback.format_exc(), "crash": True,
                 "obligations": [], "paths": 0, "fingerprint": None}
